@@ -176,6 +176,92 @@ Proof.
   - destruct (n <? 3600); reflexivity.
 Qed.
 
+(* ------------------------------------------------------------------ chain rules and write protection *)
+
+Definition rules_tuple (r : rules) : bool * bool * bool * bool * bool :=
+  (r_homestead r, r_eip150 r, r_eip155 r, r_eip158 r, r_byzantium r).
+Definition tuple5_eqb (a b : bool * bool * bool * bool * bool) : bool :=
+  match a, b with (a1, a2, a3, a4, a5), (b1, b2, b3, b4, b5) =>
+    Bool.eqb a1 b1 && Bool.eqb a2 b2 && Bool.eqb a3 b3 && Bool.eqb a4 b4 && Bool.eqb a5 b5 end.
+Lemma tuple5_eqb_eq a b : tuple5_eqb a b = true -> a = b.
+Proof.
+  destruct a as [[[[a1 a2] a3] a4] a5], b as [[[[b1 b2] b3] b4] b5]; cbn.
+  destruct a1, a2, a3, a4, a5, b1, b2, b3, b4, b5; cbn; intros H; try discriminate; reflexivity.
+Qed.
+
+Definition rules_check (g : genrules) : bool :=
+  forallb (fun o => match o with (h, t, sp, cp) =>
+     let r := select_rules (rcfg_of g) h in
+     tuple5_eqb (rules_tuple r) t
+     && Bool.eqb (enforceRestrictions (r_byzantium r) true true false 0) sp
+     && Bool.eqb (enforceRestrictions (r_byzantium r) true false true 1) cp end) (gr_observed g).
+Lemma rules_check_all : forallb rules_check gen_rules = true.
+Proof. vm_compute. reflexivity. Qed.
+
+(* the chain rules NewEVM really stored and what enforceRestrictions really answered in read-only
+   mode (for SSTORE and for a CALL with value 1), for every built-in configuration on the lattice of
+   heights, are what the model computes *)
+Theorem rules_observed : forall g h t sp cp, In g gen_rules -> In (h, t, sp, cp) (gr_observed g) ->
+  rules_tuple (select_rules (rcfg_of g) h) = t /\
+  enforceRestrictions (r_byzantium (select_rules (rcfg_of g) h)) true true false 0 = sp /\
+  enforceRestrictions (r_byzantium (select_rules (rcfg_of g) h)) true false true 1 = cp.
+Proof.
+  intros g h t sp cp Hg Ho.
+  pose proof rules_check_all as H. rewrite forallb_forall in H. specialize (H g Hg).
+  unfold rules_check in H. rewrite forallb_forall in H. specialize (H _ Ho). cbn beta iota zeta in H.
+  apply andb_true_iff in H. destruct H as [H H3]. apply andb_true_iff in H. destruct H as [H1 H2].
+  apply tuple5_eqb_eq in H1. apply Bool.eqb_prop in H2, H3. auto.
+Qed.
+
+Definition mainnet_rules : option genrules := find (fun g => String.eqb (gr_name g) "mainnet") gen_rules.
+
+(* WHAT THE CODE DOES on the main network between HF5 (22800) and HF7 (36050): the Spring
+   instruction set is installed (so STATICCALL, REVERT, RETURNDATASIZE/COPY and the shifts are valid)
+   with the HF1 gas table, but the chain rules are still pre-Byzantium / pre-EIP-155/158 (those are
+   tied to HF7), hence enforceRestrictions never refuses anything: a STATICCALL'ed callee may
+   write state in that window. *)
+Theorem mainnet_hf5_hf7_window : exists g gr, mainnet_cfg = Some g /\ mainnet_rules = Some gr /\
+  forall n, 22800 <= n < 36050 ->
+    select_iset (cfg_of g) n = Spring /\
+    select_gastable (cfg_of g) n = GasTableHF1 /\
+    rules_tuple (select_rules (rcfg_of gr) n) = (true, true, false, false, false) /\
+    (forall readOnly writes isCall value,
+        enforceRestrictions (r_byzantium (select_rules (rcfg_of gr) n)) readOnly writes isCall value = false) /\
+    spec_valid Spring 0xfa = true /\ spec_valid Spring 0xfd = true /\ spec_valid Spring 0x3e = true /\ spec_valid Spring 0x1d = true.
+Proof.
+  eexists. eexists. split; [vm_compute; reflexivity|]. split; [vm_compute; reflexivity|].
+  intros n Hn.
+  unfold select_iset, select_gastable, select_rules, rules_tuple, cfg_of, rcfg_of, isForked.
+  cbn [cc_hf5 cc_constantinople cc_byzantium cc_homestead cc_hf1
+       gc_hf5 gc_constantinople gc_byzantium gc_homestead gc_hf1
+       rc_homestead rc_eip150 rc_eip155 rc_eip158 rc_byzantium
+       gr_homestead gr_eip150 gr_eip155 gr_eip158 gr_byzantium
+       r_homestead r_eip150 r_eip155 r_eip158 r_byzantium].
+  assert (E1 : (22800 <=? n) = true) by lia.
+  assert (E2 : (3600 <=? n) = true) by lia.
+  assert (E3 : (0 <=? n) = true) by lia.
+  assert (E4 : (36050 <=? n) = false) by lia.
+  rewrite ?E1, ?E2, ?E3, ?E4.
+  repeat split; reflexivity.
+Qed.
+
+(* from HF7 on the rules are Byzantium's and read-only mode refuses writes *)
+Theorem mainnet_after_hf7 : exists gr, mainnet_rules = Some gr /\
+  forall n, 36050 <= n ->
+    rules_tuple (select_rules (rcfg_of gr) n) = (true, true, true, true, true) /\
+    enforceRestrictions (r_byzantium (select_rules (rcfg_of gr) n)) true true false 0 = true.
+Proof.
+  eexists. split; [vm_compute; reflexivity|].
+  intros n Hn.
+  unfold select_rules, rules_tuple, rcfg_of, isForked.
+  cbn [rc_homestead rc_eip150 rc_eip155 rc_eip158 rc_byzantium
+       gr_homestead gr_eip150 gr_eip155 gr_eip158 gr_byzantium
+       r_homestead r_eip150 r_eip155 r_eip158 r_byzantium].
+  assert (E3 : (0 <=? n) = true) by lia.
+  assert (E4 : (36050 <=? n) = true) by lia.
+  rewrite ?E3, ?E4. split; reflexivity.
+Qed.
+
 (* ------------------------------------------------------------------ constants *)
 
 Theorem params_match :
@@ -193,4 +279,17 @@ Theorem params_match :
   (* the Yellow-Paper tiers used by spec_op are the vm.Gas*Step constants *)
   Gbase = gp_GasQuickStep /\ Gverylow = gp_GasFastestStep /\ Glow = gp_GasFastStep /\
   Gmid = gp_GasMidStep /\ Ghigh = gp_GasSlowStep /\ Gblockhash = gp_GasExtStep.
+Proof. repeat split; reflexivity. Qed.
+
+Theorem params_match_state :
+  SstoreSetGas = gp_SstoreSetGas /\ SstoreClearGas = gp_SstoreClearGas /\ SstoreResetGas = gp_SstoreResetGas /\
+  SstoreRefundGas = gp_SstoreRefundGas /\ CallNewAccountGas = gp_CallNewAccountGas /\
+  CallValueTransferGas = gp_CallValueTransferGas /\ SuicideRefundGas = gp_SuicideRefundGas /\ CallStipend = gp_CallStipend /\
+  GasTableHomestead_full = {| gf_ExtcodeSize := gp_Homestead_ExtcodeSize; gf_ExtcodeCopy := gp_Homestead_ExtcodeCopy;
+      gf_Balance := gp_Homestead_Balance; gf_SLoad := gp_Homestead_SLoad; gf_Calls := gp_Homestead_Calls;
+      gf_Suicide := gp_Homestead_Suicide; gf_ExpByte := gp_Homestead_ExpByte; gf_CreateBySuicide := gp_Homestead_CreateBySuicide |} /\
+  GasTableHF1_full = {| gf_ExtcodeSize := gp_HF1_ExtcodeSize; gf_ExtcodeCopy := gp_HF1_ExtcodeCopy;
+      gf_Balance := gp_HF1_Balance; gf_SLoad := gp_HF1_SLoad; gf_Calls := gp_HF1_Calls;
+      gf_Suicide := gp_HF1_Suicide; gf_ExpByte := gp_HF1_ExpByte; gf_CreateBySuicide := gp_HF1_CreateBySuicide |} /\
+  gt_of_full GasTableHomestead_full = GasTableHomestead /\ gt_of_full GasTableHF1_full = GasTableHF1.
 Proof. repeat split; reflexivity. Qed.
